@@ -13,6 +13,8 @@
                                            `next_frame = Σ cleaned lengths mod 3`, and its cleaned blocks read off
                                            the CDS are exactly `Spec.cdsKept` — whenever the walk is `shallowTrim`
                                            (otherwise the pinned code refuses the CDS: F-C05b)
+    T1r deep_trim_is_refused               … and when it is not, the modelled code (like the library) refuses the
+                                           multi-exon CDS: a trimmed block gets end < start (F-C05b)
     T1' frame_shift_is_addition_mod3       the generated kernel `CDSFrame.shift`, for every integer shift
         offset_after_cut                   `_calculate_frame_offset`'s  CDSPhase(d % 3).to_frame().value = (−d) mod 3
     T2  codon_locations_are_reference_codons   `chromosome_codon_locations` / `chunk_relative_codon_locations` /
@@ -29,7 +31,7 @@
     T4  generated_frames_are_one_reading_frame   construct_frames_from_location never re-synchronises: the walk keeps
                                            every position after the first `starting_frame` (every layout, also
                                            overlapping / empty blocks, as long as the 5' block holds the offset: F-C05h)
-    T5a window_offset_selects_inner_codons the window arithmetic: cutting d retained bases at the 5' end and iterating
+    T5  codon_window_partial               the window arithmetic: cutting d retained bases at the 5' end and iterating
                                            triples from offset (−d) mod 3 yields exactly the codons lying inside
 
     T2b coding_sequence_is_codon_concatenation   `okCdsSeq`: extract_sequence() of the CDS = concatenation of the
@@ -37,10 +39,11 @@
     T3b protein_is_standard_code_translation     `okTranslate`: translate(trunc, table, strict) of the CDS
 
   Resting on the correspondence run (stated, not proved — see the comments at the end): the cached codon path of
-  `extract_sequence`, `scan_codons` / `has_*` at the level of the CDS, T5 in terms of chromosome windows
-  (`okCodons … (some window)`), and the general refusal statement for deep trims.
+  `extract_sequence`, `scan_codons` / `has_*` at the level of the CDS, and T5 in terms of chromosome windows
+  (`okCodons … (some window)`).
 -/
 import BioCantor.Proofs.CDSSeq
+import BioCantor.Proofs.CDSDeepTrim
 import BioCantor.Proofs.CDSConstructFrames
 import BioCantor.Proofs.CDSTranslate
 import BioCantor.Proofs.CDSFastPath
@@ -84,6 +87,13 @@ theorem frame_cleaning_is_reference_walk (c : CDS) (h : WFCDS c)
     (by have := h.frames_len; rw [hc] at this; exact this) h.frames_real
     (by unfold specFrames at hshallow; exact hshallow)
   exact this
+
+/-- **T1 (refusal half)** a multi-exon CDS whose walk needs a deep trim is refused (InvalidPositionException from
+    `relative_interval_to_parent_location(start > end)`), exactly the catalogued deviation F-C05b. -/
+theorem deep_trim_is_refused (c : CDS) (h : WFCDS c) (hmulti : c.loc.blocks.length > 1)
+    (hdeep : shallowTrim (exonWalk c.loc (specFrames c)) = false) :
+    ans (codonLocations c) = none :=
+  deepTrim_refused c h hmulti hdeep
 
 /-- **T2** codon locations without a window.  `cdsKept ≠ []` excludes the multi-exon CDS without any retained
     base, which the pinned code refuses (F-C05c); a single-exon CDS needs no such guard. -/
@@ -150,8 +160,17 @@ theorem generated_frames_are_one_reading_frame (l : Location) (loc : Loc) (hl : 
     okFrames loc f.value.toNat ((ans (constructFramesFromLocation l f)).map frameVals) = true :=
   constructFrames_ok l loc hl hne hdir f hf hfirst
 
-/-- **T5a** window arithmetic on the kept list: `d` retained bases lie before the window, `m` inside. -/
-theorem window_offset_selects_inner_codons (kept : List Nat) (d m : Nat) :
+/- **T5** (full statement, not proved): for `c` with `WFCDS c`, `shallowTrim …`, a window `w = ⟨some lo, some hi, false⟩`
+   with `0 ≤ lo < hi` holding at least one kept position (and, for a single-exon CDS, start frame 0):
+       okCodons (specOf c) (some w) (ans (scanChromosomeCodonLocations c (some w))) = true
+   Missing for the full statement: bases of `cleaned_location.intersection(window)` = the kept positions inside the
+   window (a contiguous stretch `kept[d : d+m]`), and the filter-form of the right-hand side below.
+   Outside that domain the pinned code deviates: F-C05a (single exon, frame ≠ 0), F-C05d (lo = hi), F-C05e (no kept
+   position in the window), F-C05f / F-C05g (expand). -/
+/-- **T5 (partial)** the arithmetic of a codon window on the kept list: `d` retained bases lie before the window,
+    `m` inside it; iterating triples from offset `(−d) mod 3` (`offset_after_cut`) over the window's stretch yields
+    exactly the codons of the CDS that lie inside the window. -/
+theorem codon_window_partial (kept : List Nat) (d m : Nat) :
     triples (((kept.drop d).take m).drop ((3 - d % 3) % 3)) =
       ((triples kept).drop ((d + 2) / 3)).take ((d + m) / 3 - (d + 2) / 3) :=
   window_triples kept d m
@@ -194,11 +213,9 @@ example : ∀ ch ∈ "ACGTNACGTAGCTAGCTRYAcgt".toList, ch.toUpper ∈ Gen.codonA
       okCodons (specOf c) (some ⟨some lo, some hi, false⟩)
         (ans (scanChromosomeCodonLocations c (some ⟨some lo, some hi, false⟩))) = true
     outside the catalogued deviation classes (Spec.codonsClass: F-C05a, d, e, f, g).
-    Proved part: `window_offset_selects_inner_codons` + `offset_after_cut` + T2 for the cleaned location.
+    Proved part: `codon_window_partial` + `offset_after_cut` + T2 for the cleaned location.
     Missing: bases of `cleaned_location.intersection(window)` = the kept positions inside the window.
 
-  Deep trim — when `shallowTrim` fails the model, like the code, refuses the CDS (InvalidPosition from
-    `relative_interval_to_parent_location(start > end)`): witness below, general statement by correspondence.
 -/
 
 /-! ### witnesses: the modelled current code deviates at the catalogued inputs (findings/C05.json) -/
@@ -219,6 +236,9 @@ def deepTrimCDS : CDS :=
 example : shallowTrim (exonWalk deepTrimCDS.loc (specFrames deepTrimCDS)) = false := by decide
 example : (cdsCodons deepTrimCDS.loc (specFrames deepTrimCDS)) = [[2, 3, 4]] := by decide
 example : ans (codonLocations deepTrimCDS) = none := by decide +kernel
+example : WFCDS deepTrimCDS ∧ deepTrimCDS.loc.blocks.length > 1 := by
+  refine ⟨?_, by decide⟩
+  constructor <;> simp [deepTrimCDS] <;> decide
 
 /-- F-C05c: exons [1,2) [2,3) frames [0,2] + : no base survives; the modelled multi-exon path refuses -/
 def emptiedCDS : CDS :=
